@@ -587,7 +587,31 @@ func TestProp(t *testing.T) {
 		"non-trivial = >= 4 properties, both forms present and >= 1 value of >= 120 bytes; distinct by packet bytes")
 	rec.Assume("values use what a writer can emit without escaping: no < > & quotes, no leading / trailing white space; predefined entities, TAB / CR white space, > 100 bytes between tokens and Rating -1 are extended switches checked separately (key ext:<switch>)")
 	rec.Assume("GPS coordinates in the XMP 'DDD,MM.mmK' form, dates without seconds and rdf:parseType structures are outside what the code accepts and are not generated")
+	rec.Rule("exhaustive shift: records drawn from VERIF_SEED, each behind 0..N bytes that precede the packet (N = 1600 quick, 3300 thorough; the reader's window is 1538 bytes): every token of the packet meets every window phase")
 	pbt.RegressDir(t, rec)
+	{
+		idx := 0
+		for ri := 0; ri < rec.Env.Pick(2, 8); ri++ {
+			base := rapid.Custom(genCase(opts{})).Example(int(rec.Env.Seed%100000)*16 + ri + 1)
+			for n := 0; n <= rec.Env.Pick(1600, 3300); n++ {
+				idx++
+				if idx%rec.Env.Shards != rec.Env.Shard {
+					continue
+				}
+				c := base
+				c.Rec.Junk = strings.Repeat(" ", n)
+				if n%3 == 1 {
+					c.Rec.Junk = strings.Repeat("\n", n)
+				}
+				rec.Case(true, ev.HashS("shift", fmt.Sprint(ri, n)), "window-phase-sweep")
+				if f := eval(c); f != nil {
+					if pbt.Report(t, rec, chk.Name, c, f) {
+						return
+					}
+				}
+			}
+		}
+	}
 	if !pbt.Run(t, rec, chk, rec.Env.Pick(3000, 150000), 1) {
 		return
 	}
